@@ -1,10 +1,14 @@
 """C22 — `check --fix` edits are safe.
 
 Level: translation validation.
-Proof (GardenVerif.Props.C22): `apply_fixes_disjoint` (exact model of `apply_fixes`: for pairwise-disjoint in-bounds
-fixes in any order the result is the simultaneous substitution, no slicing panic), `fixesOf_disjoint`, and the
-per-lint schema lemmas on the reference semantics (`unused_literal_stmt_sound`, `unused_string_stmt_sound`,
-`unnecessary_let_sound`, `repeated_bool_sound`).
+Proof (GardenVerif.Props.C22): `apply_fixes_disjoint` / `apply_fixes_skip_disjoint` (exact models of `apply_fixes`, original
+and overlap-skipping: for pairwise-disjoint in-bounds fixes in any order the result is the simultaneous substitution, no
+slicing panic), `fixesOf_disjoint`; local schema lemmas (`unused_literal_stmt_sound`, `unused_string_stmt_sound`,
+`unnecessary_let_sound`, `repeated_bool_sound`); WHOLE-PROGRAM schema theorems on the closure-free reference semantics:
+`unused_literal_fix_sound_partial` (deleting non-last int / string literal statements anywhere preserves the run) and
+`repeated_bool_fix_sound_partial` (`x op d` -> `x` for a call-free pure chain preserves the run unless the original ends
+with a type error), with sound checkers `unusedLiteralCheck` / `repeatedBoolCheck` evaluated per input (driver ops
+`litfix_check`, `rbfix_check`) on the original and the program after ONLY those fixes.
 Per input (programs that trigger the fixable lints: unused literal statements — alone on a line, sharing a line with
 other code, with effectful items —, unused variables / parameters, `let x = e; x`, trailing `return`, repeated
 `&&` / `||` operands (plain and effectful), `len() == 0`, arms after `_`):
